@@ -7,6 +7,7 @@ import (
 
 	"github.com/cedar-policy/cedar-go/internal/consts"
 	"github.com/cedar-policy/cedar-go/internal/extensions"
+	"github.com/cedar-policy/cedar-go/types"
 	"github.com/cedar-policy/cedar-go/x/exp/ast"
 )
 
@@ -157,6 +158,22 @@ func marshalChildNode(thisNodePrecedence nodePrecedenceLevel, childAstNode ast.I
 	}
 }
 
+// marshalReceiverNode renders the receiver of an attribute access or method call. Besides lower-ranked expressions a
+// negative integer literal needs parentheses there: it is written with a leading '-', so `-1.isEmpty()` would read
+// as the literal -1 followed by text the grammar cannot continue with. Everywhere else (operands, set and record
+// elements, call arguments) a negative literal is written bare.
+func marshalReceiverNode(thisNodePrecedence nodePrecedenceLevel, childAstNode ast.IsNode, buf *bytes.Buffer) {
+	if v, ok := childAstNode.(ast.NodeValue); ok {
+		if l, ok := v.Value.(types.Long); ok && l < 0 {
+			buf.WriteRune('(')
+			buf.Write(v.Value.MarshalCedar())
+			buf.WriteRune(')')
+			return
+		}
+	}
+	marshalChildNode(thisNodePrecedence, childAstNode, buf)
+}
+
 func (n NodeTypeNot) marshalCedar(buf *bytes.Buffer) {
 	buf.WriteRune('!')
 	marshalChildNode(n.precedenceLevel(), n.NodeTypeNot.Arg, buf)
@@ -180,7 +197,7 @@ func canMarshalAsIdent(s string) bool {
 }
 
 func (n NodeTypeAccess) marshalCedar(buf *bytes.Buffer) {
-	marshalChildNode(n.precedenceLevel(), n.Arg, buf)
+	marshalReceiverNode(n.precedenceLevel(), n.Arg, buf)
 
 	if canMarshalAsIdent(string(n.Value)) {
 		buf.WriteRune('.')
@@ -198,7 +215,7 @@ func (n NodeTypeExtensionCall) marshalCedar(buf *bytes.Buffer) {
 	// A method-style call needs a receiver; an argument-less call (only constructible from JSON or
 	// programmatically) is rendered in function style instead of indexing past the end.
 	if info.IsMethod && len(n.Args) > 0 {
-		marshalChildNode(n.precedenceLevel(), n.Args[0], buf)
+		marshalReceiverNode(n.precedenceLevel(), n.Args[0], buf)
 		buf.WriteRune('.')
 		args = n.Args[1:]
 	} else {
@@ -216,40 +233,40 @@ func (n NodeTypeExtensionCall) marshalCedar(buf *bytes.Buffer) {
 }
 
 func (n NodeTypeContains) marshalCedar(buf *bytes.Buffer) {
-	marshalChildNode(n.precedenceLevel(), n.Left, buf)
+	marshalReceiverNode(n.precedenceLevel(), n.Left, buf)
 	buf.WriteString(".contains(")
 	marshalChildNode(n.precedenceLevel(), n.Right, buf)
 	buf.WriteRune(')')
 }
 
 func (n NodeTypeContainsAll) marshalCedar(buf *bytes.Buffer) {
-	marshalChildNode(n.precedenceLevel(), n.Left, buf)
+	marshalReceiverNode(n.precedenceLevel(), n.Left, buf)
 	buf.WriteString(".containsAll(")
 	marshalChildNode(n.precedenceLevel(), n.Right, buf)
 	buf.WriteRune(')')
 }
 
 func (n NodeTypeContainsAny) marshalCedar(buf *bytes.Buffer) {
-	marshalChildNode(n.precedenceLevel(), n.Left, buf)
+	marshalReceiverNode(n.precedenceLevel(), n.Left, buf)
 	buf.WriteString(".containsAny(")
 	marshalChildNode(n.precedenceLevel(), n.Right, buf)
 	buf.WriteRune(')')
 }
 
 func (n NodeTypeIsEmpty) marshalCedar(buf *bytes.Buffer) {
-	marshalChildNode(n.precedenceLevel(), n.Arg, buf)
+	marshalReceiverNode(n.precedenceLevel(), n.Arg, buf)
 	buf.WriteString(".isEmpty()")
 }
 
 func (n NodeTypeGetTag) marshalCedar(buf *bytes.Buffer) {
-	marshalChildNode(n.precedenceLevel(), n.Left, buf)
+	marshalReceiverNode(n.precedenceLevel(), n.Left, buf)
 	buf.WriteString(".getTag(")
 	marshalChildNode(n.precedenceLevel(), n.Right, buf)
 	buf.WriteRune(')')
 }
 
 func (n NodeTypeHasTag) marshalCedar(buf *bytes.Buffer) {
-	marshalChildNode(n.precedenceLevel(), n.Left, buf)
+	marshalReceiverNode(n.precedenceLevel(), n.Left, buf)
 	buf.WriteString(".hasTag(")
 	marshalChildNode(n.precedenceLevel(), n.Right, buf)
 	buf.WriteRune(')')
